@@ -16,6 +16,46 @@ def pump(n, rounds=1):
     return out
 
 
+def ancestors(i):
+    out = []
+    while i > 0:
+        i = parent(i)
+        out.append(i)
+    return out
+
+
+def cross_wave(n, x, y):
+    """Two application messages straddle a wave boundary while control messages overtake them.
+    Wave k: x sends m1 to y, goes idle and reports with m1 still in flight (the root sees S=1, R=0).
+    Wave k+1: y reports before m1 reaches it, then receives m1, gets a task and answers with m2;
+    x receives m2 and is idle again before its (held back) DOWN of wave k arrives, so it reports
+    S=1, R=1: the sums balance by accident although y is busy.  x is the root or any rank, y a rank
+    in another subtree."""
+    below_x = [c for c in range(1, n) if x in ancestors(c)]
+    held = set([x] + below_x) if x != 0 else set()
+    sc = [("t%d:1" if i == x else "a%d:1") % i for i in range(n)] + ["r%d" % i for i in range(n)]
+    sc += ["a%d:-1" % i for i in range(n - 1, -1, -1) if i != x]
+    sc += ["s%d:%d" % (x, y), "t%d:-1" % x]
+    sc += ["d%d:%d" % (c, parent(c)) for c in range(n - 1, 0, -1)]                       # wave k reaches the root
+    sc += ["d%d:%d" % (parent(c), c) for c in range(1, n) if c not in held]             # DOWN(again), not to x
+    sc += ["d%d:%d" % (c, parent(c)) for c in range(n - 1, 0, -1) if parent(c) != 0]    # reports of wave k+1 below the root's children
+    sc += ["b%d" % y, "t%d:1" % y, "e%d" % y, "s%d:%d" % (y, x), "b%d" % x, "e%d" % x, "t%d:1" % x, "t%d:-1" % x]
+    sc += ["d%d:%d" % (parent(c), c) for c in range(1, n) if c in held]                 # the held DOWN arrives
+    sc += ["d%d:%d" % (c, parent(c)) for c in range(n - 1, 0, -1)]                       # wave k+1 reaches the root
+    sc += ["t%d:-1" % y]
+    return (n, sc, "f")
+
+
+def cross_wave_family(nmax=5):
+    out = []
+    for n in range(3, nmax + 1):
+        for x in range(n):
+            for y in range(1, n):
+                if y != x and x not in ancestors(y) and y not in ancestors(x) or (x == 0 and y != 0):
+                    out.append(cross_wave(n, x, y))
+    return out
+
+
 class C11(Check):
     id = "C11"
     prop_file = "theories/Properties/Properties_C11.v"
@@ -44,7 +84,9 @@ class C11(Check):
                   "received, messages are sent by busy taskpools, counters never negative); uint32 counters do not wrap.")
     technique = ("Coq proof (inductive invariant over micro-steps, ghost wave snapshots) + stepwise differential run of the real "
                  "module (N ranks in one process, simulated network) against the extracted model + property oracle")
-    rule = ("directed templates (message crossing a wave, receipt still open at both waves, reactivation after reporting idle, "
+    rule = ("directed families: two application messages held back across a wave boundary while control messages overtake "
+            "them (accidental S=R in the second wave with unequal previous counts; every root/other-subtree position, N = 3..5, "
+            "to 7 in the thorough tier and in the search), templates (message crossing a wave, receipt still open at both waves, reactivation after reporting idle, "
             "late ready with delayed UP) instantiated for N = 2..7 and random histories of <= 60 events for N = 1..7, most with "
             "the quiesce-and-drain epilogue; non-trivial = at least one application message or N >= 2 with a delivery; "
             "distinct = distinct case text")
@@ -168,6 +210,7 @@ class C11(Check):
         r = self.rng
         out = []
         reps = 3 if self.tier == "quick" else 40
+        out += cross_wave_family(5 if self.tier == "quick" else 7)
         for _ in range(reps):
             out += self.directed(r)
         for _ in range(2500 if self.tier == "quick" else 60000):
@@ -256,7 +299,7 @@ class C11(Check):
 
     def search_cases(self):
         r = Rng(self.seed + 77)
-        out = []
+        out = cross_wave_family(7)
         for _ in range(30):
             out += self.directed(r)
         for _ in range(4000):
